@@ -180,6 +180,19 @@ def pyop(op, x, y):
 
 def build(t):
     kind = t[0]
+    if kind == "dup-top-binop":
+        # a binary operator one of whose operands has its top bit DUPLICATED (Cat(x, x[-1]), an unsigned value whose two top bits
+        # are the same net): back ends that shorten operands by redundant top bits must do so according to the operand's OWN signedness
+        _, op, sa, sb, side = t
+        from amaranth.hdl import Cat
+
+        def mk(a, b):
+            if side == "l":
+                a = Cat(a, a[-1])
+            else:
+                b = Cat(b, b[-1])
+            return BINOPS[op](a, b)
+        return [sa, sb], mk, None
     if kind == "padded-unop":
         # a unary operator over a value with CONSTANT low / high bits (zeros or ones), as left by concatenation with constants or by
         # partially driven signals: back ends that shorten operands by their constant bits must not change the result
